@@ -290,6 +290,7 @@ type c03Stmt struct {
 	c      *c03Expr
 	a, b   []*c03Stmt
 	hasEls bool
+	elseIf bool // print `} else if c {` when the else-block is exactly one if statement
 	lo     int
 	cnt    int
 	es     []*c03Expr
@@ -351,6 +352,13 @@ func (s *c03Stmt) src(sb *strings.Builder, ind int) {
 		fmt.Fprintf(sb, "%sif %s {\n", in, s.c.src())
 		for _, x := range s.a {
 			x.src(sb, ind+1)
+		}
+		if s.hasEls && s.elseIf && len(s.b) == 1 && s.b[0].tag == c03SIf {
+			// else-if chain: the parser makes the inner if the False branch itself
+			var inner strings.Builder
+			s.b[0].src(&inner, ind)
+			fmt.Fprintf(sb, "%s} else %s", in, strings.TrimLeft(inner.String(), "\t"))
+			return
 		}
 		if s.hasEls {
 			fmt.Fprintf(sb, "%s} else {\n", in)
@@ -1140,6 +1148,16 @@ func (fw *c03FeatWalker) block(b []*c03Stmt, inLoop bool) {
 			fw.feat["if"] = true
 			if s.hasEls {
 				fw.feat["else"] = true
+				if s.elseIf && len(s.b) == 1 && s.b[0].tag == c03SIf {
+					fw.feat["else-if"] = true
+				}
+				// both arms assign the same variable under a nested condition
+				na, nb := c03NestedAssigned(s.a), c03NestedAssigned(s.b)
+				for id := range na {
+					if nb[id] {
+						fw.feat["nested-conditional-assignment-in-both-arms"] = true
+					}
+				}
 			}
 			fw.block(s.a, inLoop)
 			fw.block(s.b, inLoop)
@@ -1194,4 +1212,27 @@ func c03Features(p *c03Prog) c03Feat {
 		fw.block(f.body, false)
 	}
 	return fw.feat
+}
+
+// c03NestedAssigned: variables assigned inside an if statement of the block
+// (at any depth below that if).
+func c03NestedAssigned(b []*c03Stmt) map[int]bool {
+	out := map[int]bool{}
+	var all func(b []*c03Stmt)
+	all = func(b []*c03Stmt) {
+		for _, s := range b {
+			if s.tag == c03SAssign || s.tag == c03SStore {
+				out[s.v.id] = true
+			}
+			all(s.a)
+			all(s.b)
+		}
+	}
+	for _, s := range b {
+		if s.tag == c03SIf {
+			all(s.a)
+			all(s.b)
+		}
+	}
+	return out
 }
